@@ -254,3 +254,50 @@ void fibre_eventq_release(fibre_eventq_t *evtq, void *evtp)
 {
 	messageq_release(&evtq->eventq, evtp);
 }
+
+#ifdef LIBRFN_VERIF
+void fibre_verif_reset(void)
+{
+	kernel.current = NULL;
+	kernel.state = 0;
+	kernel.now = 0;
+	kernel.runq = (list_t) LIST_VAR_INIT;
+	kernel.timerq = (list_t) LIST_VAR_INIT;
+	memset(atomic_runq_buf, 0, sizeof(atomic_runq_buf));
+	messageq_init(&kernel.atomic_runq, atomic_runq_buf,
+		      sizeof(atomic_runq_buf), sizeof(atomic_runq_buf[0]));
+	atomic_store(&kernel.taint_flags, 0);
+}
+
+void fibre_verif_snapshot(fibre_verif_snapshot_t *s)
+{
+	list_node_t *n;
+	messageq_t *mq = &kernel.atomic_runq;
+
+	memset(s, 0, sizeof(*s));
+	s->current = kernel.current;
+	s->state = kernel.state;
+	s->now = kernel.now;
+	for (n = kernel.runq.head; n && s->nrunq < FIBRE_VERIF_MAX; n = n->next)
+		s->runq[s->nrunq++] = containerof(n, fibre_t, link);
+	for (n = kernel.timerq.head; n && s->ntimerq < FIBRE_VERIF_MAX;
+	     n = n->next)
+		s->timerq[s->ntimerq++] = containerof(n, fibre_t, link);
+	s->num_free = atomic_load(&mq->num_free);
+	s->sendp = atomic_load(&mq->sendp);
+	s->receivep = mq->receivep;
+	s->full_flags = atomic_load(&mq->full_flags);
+	s->taint_flags = atomic_load(&kernel.taint_flags);
+	for (unsigned int i = mq->receivep, k = 0; k < mq->queue_len; k++) {
+		if (!(s->full_flags & (1u << i)))
+			break;
+		s->atomicq[s->natomic++] = atomic_runq_buf[i];
+		i = (i >= (unsigned int) (mq->queue_len - 1) ? 0 : i + 1);
+	}
+}
+
+messageq_t *fibre_verif_atomic_runq(void)
+{
+	return &kernel.atomic_runq;
+}
+#endif /* LIBRFN_VERIF */
